@@ -72,7 +72,7 @@ def real_sel(costs):
     frozen = list(pop)
     out, problems = [], []
 
-    def ids(l): return [a.position[0] for a in l]
+    def ids(l): return [(a.position[0] if hasattr(a, "position") else -1) for a in l]          # -1: not an agent at all (e.g. None)
 
     def guard(name):
         if len(pop) != len(frozen) or any(a is not b for a, b in zip(pop, frozen)):
@@ -123,6 +123,8 @@ def real_sel(costs):
         for nb, nw in ((1, 1), (None, n_), (0, 0), (n_, None), (1, 0), (0, 1), (n_, 0), (None, 0), (0, None)):
             try:
                 b, w = H.special_agents(pop, nb, nw, d); out += [ids(b), ids(w)]
+                if any(x not in frozen for x in list(b) + list(w)):
+                    problems.append(f"special_agents({nb},{nw},{d}) returns something that is not a member of the population: {[getattr(x, 'cost', x) for x in list(b) + list(w)]}")
                 eb = H.best_agents(pop, nb, d) if nb is not None else []
                 ew = H.worst_agents(pop, nw, d) if nw is not None else []
                 if ids(b) != ids(eb) or ids(w) != ids(ew):
